@@ -313,6 +313,21 @@ func vTanStep(l *LogDB, ms []*vTanNode, ops int) error {
 		vReach("remove-node")
 	case vOpBoth:
 		vAssume(!b.removed)
+		if a.hasState && a.state.Commit < a.last() && vBool("lastUpdateCommitOnly") {
+			// the last update of the batch does not ask for an fsync by itself
+			// (commit index only); the first one (entries of the other replica) does
+			eb, tb := vTanEntries(b.last()+1, 1, b.maxTerm)
+			b.maxTerm = tb
+			ub := pb.Update{ShardID: b.shard, ReplicaID: b.replica, EntriesToSave: eb, State: pb.State{Term: tb, Vote: b.state.Vote, Commit: b.state.Commit}}
+			ua := pb.Update{ShardID: a.shard, ReplicaID: a.replica, State: pb.State{Term: a.state.Term, Vote: a.state.Vote, Commit: a.state.Commit + 1}}
+			vReach("batch-ends-with-a-commit-only-update")
+			if err := l.SaveRaftState([]pb.Update{ub, ua}, 1); err != nil {
+				return err
+			}
+			a.apply(ua)
+			b.apply(ub)
+			return nil
+		}
 		ua := vTanUpdate(a, vOpEntries)
 		eb, tb := vTanEntries(b.last()+1, 1, b.maxTerm)
 		b.maxTerm = tb
@@ -404,7 +419,7 @@ func vTanCheck(l *LogDB, m *vTanNode, tag string) {
 
 // C09 (Tan, regular and multiplexed): after any sequence of saves, removals
 // and close/reopen the store reports the logical log, for both replicas.
-//vcheck: reach=overwrite,snapshot,remove-entries,remove-node,reopened,done workers=16 steps=3000000
+//vcheck: reach=overwrite,snapshot,remove-entries,remove-node,reopened,batch-ends-with-a-commit-only-update,done workers=16 steps=3000000
 func VHarness_C09_TanModel() {
 	env := vNewTanEnv()
 	l, err := env.open()
@@ -653,7 +668,7 @@ func vTanDiff(l *LogDB, m *vTanNode) string {
 // dropped), then reopen: every save that had returned is completely readable
 // (term, vote, entries, snapshot record), the interrupted save is per replica
 // completely visible or completely absent.
-//vcheck: props=C04 reach=crash-during-open,crash-during-save,crash-after-all,interrupted-visible,interrupted-absent,done workers=16
+//vcheck: props=C04 reach=crash-during-open,crash-during-save,crash-after-all,interrupted-visible,interrupted-absent,batch-ends-with-a-commit-only-update,done workers=16
 func VHarness_C10_TanCrash() {
 	env := vNewTanEnv()
 	env.inj.crashAt = vInt("crashAtSync")
